@@ -267,28 +267,30 @@ def run(ctx):
     stress, crash = [], []
 
     if ctx.prop == "C08":
-        ctx.mc("PartRefs", "PartRefs.MC.cfg", workers=4, timeout=1500, subst={"MaxOps": ctx.pick("3", "4")})
+        ctx.mc("PartRefs", "PartRefs.MC.cfg", workers=ctx.pick(4, 8), timeout=3000,
+               subst={"MaxOps": ctx.pick("3", "5"), "MaxId": ctx.pick("4", "5")})
         if not quick:
-            ctx.mc("PartRefs", "PartRefs.MC2.cfg", workers=8, timeout=2400)
+            ctx.mc("PartRefs", "PartRefs.MC2.cfg", workers=8, timeout=3000)
         must_violate(ctx, "PartRefs.MC.cfg", "H-C08-condemn-no-recount", "NoReferencedPartMissing", {"MaxOps": "2"})
         must_violate(ctx, "PartRefs.MC.cfg", "H-C08-copy-no-tryadd", None, {"MaxOps": "3"})
         weights = {"W": 6, "F": 2, "T": 1, "G": 7, "R": 0}
         # (stack, walks, scenario set, scenario sample (None = all interleavings), modes)
         plan = ctx.pick([("fs", 12, [1, 2, 3], 24, ["api"]), ("classes", 8, [8, 9], 10, ["api"])],
-                        [("fs", 100, [1, 2, 3], None, ["api"]), ("sql", 50, [1, 2, 3], 100, ["api"]),
-                         ("fs2", 40, [8, 9], 100, ["api"]), ("classes", 100, [8, 9], 150, ["api"])])
+                        [("fs", 200, [1, 2, 3], None, ["api"]), ("sql", 100, [1, 2, 3], 200, ["api"]),
+                         ("fs2", 80, [8, 9], 200, ["api"]), ("classes", 200, [8, 9], 300, ["api"])])
         stress = ctx.pick([("fs", 4, 40, 2)], [("fs", 6, 300, 3), ("sql", 4, 150, 2), ("classes", 6, 300, 3)])
     elif ctx.prop == "C09":
-        ctx.mc("PartRefs", "PartRefs.MCLive.cfg", workers=4, timeout=1500)
+        ctx.mc("PartRefs", "PartRefs.MCLive.cfg", workers=ctx.pick(4, 8), timeout=3000,
+               subst={"MaxOps": ctx.pick("3", "4"), "MaxId": ctx.pick("3", "4")})
         must_violate(ctx, "PartRefs.MCLive.cfg", "D-C09-stray-temp", "Reclaims")
         if not quick:
             ctx.mc("PartRefs", "PartRefs.MCLive2.cfg", workers=4, timeout=1500)
             must_violate(ctx, "PartRefs.MCLive2.cfg", "H-C09-gc-default-store-only", "Reclaims")
         weights = {"W": 5, "F": 4, "T": 1, "G": 5, "R": 0}
         plan = ctx.pick([("fs", 10, [], 0, ["api"]), ("classes", 8, [], 0, ["api"])],
-                        [("fs", 100, [], 0, ["api"]), ("sql", 50, [], 0, ["api"]), ("fs2", 40, [], 0, ["api"]),
-                         ("classes", 100, [], 0, ["api"])])
-        crash = ctx.pick([("fs", 3, 6)], [("fs", 12, 16), ("classes", 8, 12), ("sql", 4, 8)])
+                        [("fs", 200, [], 0, ["api"]), ("sql", 100, [], 0, ["api"]), ("fs2", 80, [], 0, ["api"]),
+                         ("classes", 200, [], 0, ["api"])])
+        crash = ctx.pick([("fs", 3, 6)], [("fs", 16, 20), ("classes", 12, 16), ("sql", 4, 8)])
     else:
         big = {"MaxOps": ctx.pick("2", "3"), "MaxId": ctx.pick("4", "5")}
         ctx.mc("PartRefs", "PartRefs.MCRead.cfg", workers=4, timeout=1500, subst=dict(big))
@@ -296,8 +298,8 @@ def run(ctx):
         must_violate(ctx, "PartRefs.MCRead.cfg", "H-C40-missing-part-eof", "ReaderOutcome")
         weights = {"W": 5, "F": 1, "T": 1, "G": 3, "R": 7}
         plan = ctx.pick([("fs", 6, [4], None, ["api", "http"]), ("fs", 0, [5, 6], 8, ["api", "http"]), ("sql", 4, [4, 6], 8, ["api", "http"])],
-                        [("fs", 80, [4, 5], None, ["api", "http"]), ("fs", 0, [6], 150, ["api", "http"]),
-                         ("sql", 50, [4, 5, 6], 100, ["api", "http"]), ("classes", 80, [6, 7], 150, ["api", "http"])])
+                        [("fs", 160, [4, 5], None, ["api", "http"]), ("fs", 0, [6], 300, ["api", "http"]),
+                         ("sql", 100, [4, 5, 6], 200, ["api", "http"]), ("classes", 160, [6, 7], 300, ["api", "http"])])
         stress = ctx.pick([("fs", 3, 30, 3)], [("fs", 4, 200, 4), ("sql", 4, 150, 4), ("classes", 4, 200, 4)])
 
     depth = ctx.pick(16, 22)
